@@ -774,7 +774,12 @@ fn gen(args: &Args, emit: &mut dyn FnMut(String), stats: &mut Stats) {
                 let rx = coeffs(&mut g.rng, rl, 1000, "mixed");
                 let ry = coeffs(&mut g.rng, rl, 1000, "mixed");
                 g.stats.bump("op:fi");
-                format!("fi {} {} {} {}", join(&v), n, join(&rx), join(&ry))
+                // n = 0 asks fft_into itself for the auto-size (a branch `fft` never reaches: it normalises n first)
+                let auto = g.rng.chance(1, 3);
+                if auto {
+                    g.stats.bump("op:fi-autosize");
+                }
+                format!("fi {} {} {} {}", join(&v), if auto { 0 } else { n }, join(&rx), join(&ry))
             }
             2 => {
                 let xs = coeffs(&mut g.rng, n, 1000, "mixed");
